@@ -305,6 +305,7 @@ func C12(c *core.Ctx) {
 		c12batches(c)
 		c12sameObject(c)
 		c12counterWrap(c)
+	c12idReuseHeld(c)
 		c12failedWrite(c)
 		c12broker(c)
 		c12brokerFlow(c)
@@ -375,6 +376,7 @@ func C12(c *core.Ctx) {
 	c12batches(c)
 	c12sameObject(c)
 	c12counterWrap(c)
+	c12idReuseHeld(c)
 	c12failedWrite(c)
 	c12broker(c)
 	c12brokerFlow(c)
